@@ -53,6 +53,9 @@ GEN_OK = ["param #1:*", "self.b_hasher", "call num::one*", "call num::zero*", "c
           "len(self.hsketch)", "self.permut_generator"]
 
 
+from ..rulelib import before as _before
+
+
 def _has(conds, a, ops, b):
     return nf.has_cmp(conds, a, ops, b) is not None
 
@@ -69,7 +72,7 @@ def _smh(ctx, facts):
         where = hirq.loc(w)
         reg = nf.nf(w["l"], True, res=R)
         val = nf.nf(w["r"], True, res=R)
-        conds = nf.all_conditions(t, w, res=R)
+        conds = nf.control_facts(t, w, res=R)
         if w["k"] == "Assign" and _has(conds, val, ("<", "<="), reg):
             ctx.ok("GUARD", fid, "%s = %s under %s < %s" % (nf.nf(w["l"], True), nf.nf(w["r"], True), nf.nf(w["r"], True), nf.nf(w["l"], True)), where)
         else:
@@ -157,7 +160,7 @@ def _smh2(ctx, facts):
         L = "self.l[%s]" % kr
         conds = nf.all_conditions(t, w, res=R)
         blk = t.parent.get(id(w))
-        sib = {ff: x for (x, ff, ii) in ws if t.parent.get(id(x)) is blk and ii and nf.nf(ii[0], True) == k}
+        sib = {ff: x for (x, ff, ii) in ws if t.parent.get(id(x)) is blk and ii and nf.nf(ii[0], True, res=R) == kr}
         tie = _has(conds, J, ("==",), L) or _has(conds, L, ("==",), J)
         lower = _has(conds, J, ("<",), L) or ((_has(conds, J, ("!=",), L) or _has(conds, L, ("!=",), J)) and _has(conds, J, ("<=",), L))
         good = False
@@ -165,7 +168,7 @@ def _smh2(ctx, facts):
             rv = nf.nf(sib["values"]["r"], True, res=R) if "values" in sib else None
             good = rv is not None and _has(conds, rv, ("<=", "<"), "self.values[%s]" % kr) and "l" not in sib and "hsketch" in sib
         elif lower and not tie:
-            good = "l" in sib and nf.nf(sib["l"]["r"], True) == J and "values" in sib and "hsketch" in sib
+            good = "l" in sib and nf.nf(sib["l"]["r"], True, res=R) == J and "values" in sib and "hsketch" in sib
         if good:
             ctx.ok("GUARD", fid, "%s under %s" % (nf.nf(w)[:40], nf.all_conditions(t, w)[:3]), where)
         else:
@@ -193,7 +196,7 @@ def _setsketch(ctx, facts):
         n += 1
         where = hirq.loc(w)
         i = nf.nf(idx[0], True, res=R)
-        conds = nf.all_conditions(t, w, res=R)
+        conds = nf.control_facts(t, w, res=R)
         cur = "self.k_vec[%s].to_u64().unwrap()" % i
         val = nf.nf(w["r"], True, res=R)
         # the compared value c: cur < c
@@ -203,10 +206,16 @@ def _setsketch(ctx, facts):
                 c = it[3]
         good = False
         if w["k"] == "Assign" and c is not None:
-            if val == "num::FromPrimitive::from_u64(%s).unwrap()" % c and _has(conds, c, ("<=",), IMAX):
-                good = True
-            elif val == "num::FromPrimitive::from_u64(%s).unwrap()" % IMAX and _has(conds, IMAX, ("<",), c):
-                good = True   # clamp to the register type's maximum
+            # case by case when the stored value goes through `let stored = if k > imax { imax } else { k }`
+            alts = nf.alternatives(w["r"], R)
+            good = bool(alts)
+            for (ac, v_) in alts:
+                cs_ = conds + ac
+                if v_ == "num::FromPrimitive::from_u64(%s).unwrap()" % c and _has(cs_, c, ("<=",), IMAX):
+                    continue
+                if v_ == "num::FromPrimitive::from_u64(%s).unwrap()" % IMAX and _has(cs_, IMAX, ("<",), c):
+                    continue      # clamp to the register type's maximum
+                good = False
         if good:
             ctx.ok("GUARD", fid, "%s under current register < candidate (%s)" % (nf.nf(w, True)[:60], "clamped to I::max" if IMAX in val else "candidate written"), where)
         else:
@@ -250,7 +259,7 @@ def setsketch_candidate(fn):
     for (w, f, idx) in writes_to_self(fn, "k_vec"):
         i = nf.nf(idx[0], True, res=R)
         cur = "self.k_vec[%s].to_u64().unwrap()" % i
-        for it in nf.all_conditions(t, w, res=R):
+        for it in nf.control_facts(t, w, res=R):
             if it[0] == "cmp" and it[2] == "<" and it[1] == cur:
                 return it[3]
     return None
@@ -261,6 +270,7 @@ def _dens_sketch(ctx, facts, prefix):
     fn = facts.fn(fid)
     t = tree_of(fn)
     sl = slicer_of(fn)
+    R = resolver_of(fn)
     ws = writes_to_self(fn)
     n = 0
     for (w, f, idx) in ws:
@@ -268,15 +278,15 @@ def _dens_sketch(ctx, facts, prefix):
             continue
         n += 1
         where = hirq.loc(w)
-        k = nf.nf(idx[0], True)
-        conds = nf.all_conditions(t, w)
+        k = kr = nf.nf(idx[0], True, res=R)
+        conds = nf.control_facts(t, w, res=R)
         blk = t.parent.get(id(w))
-        sib = {ff: x for (x, ff, ii) in ws if t.parent.get(id(x)) is blk and ii and nf.nf(ii[0], True) == k}
+        sib = {ff: x for (x, ff, ii) in ws if t.parent.get(id(x)) is blk and ii and nf.nf(ii[0], True, res=R) == kr}
         if "hsketch" not in sib or "values" not in sib:
             ctx.violation("PAIR", fid, "%s write alone" % f, where, "hsketch[%s] and values[%s] must be written together in the same block" % (k, k))
             continue
-        r = nf.nf(sib["hsketch"]["r"], True)
-        p = nf.nf(sib["values"]["r"], True)
+        r = nf.nf(sib["hsketch"]["r"], True, res=R)
+        p = nf.nf(sib["values"]["r"], True, res=R)
         reg = "self.hsketch[%s]" % k
         pay = "self.values[%s]" % k
         strict = _has(conds, r, ("<",), reg)
@@ -388,7 +398,7 @@ def _histo(ctx, facts, fid, kind):
         if d0["k"] == "Path" and "local" in d0["res"]:
             lets = [n for n in user_nodes(fn) if n["k"] == "Let" and n["pat"]["k"] == "Bind" and n["pat"]["id"] == d0["res"]["local"]]
             read_before = bool(lets) and bool(lw) and hir_dominates(t, lets[0], lw[0])
-        ok = ok and old.startswith("self.l[") and len(lw) == 1 and nf.nf(lw[0]["r"], True) == J and nf.nf(lw[0]["l"], True, res=R) == old and read_before and \
+        ok = ok and old.startswith("self.l[") and len(lw) == 1 and nf.nf(lw[0]["r"], True, res=R) == J and nf.nf(lw[0]["l"], True, res=R) == old and read_before and \
             (hir_dominates(t, dec, lw[0]) or d0["k"] == "Path")
         msg = "old level must be self.l[k], decremented before `self.l[k] = %s` in the same block" % J
     if ok:
@@ -402,7 +412,7 @@ def _histo(ctx, facts, fid, kind):
         ac = nf.all_conditions(t, a, stop=blk)
         step = nf.nf(a, True) in ("self.a_upper -= 1", "self.a_upper = (self.a_upper - 1)")
         loops = t.enclosing_loops(a)
-        good = step and ac[:1] == [("cmp", "0", "==", "self.b[self.a_upper]")] and bool(loops) and t.contains(blk, loops[0]) and inc["sp"][1] <= a["sp"][1]
+        good = step and ac[:1] == [("cmp", "0", "==", "self.b[self.a_upper]")] and bool(loops) and t.contains(blk, loops[0]) and _before(fn, inc, a)
     if good:
         ctx.ok("HISTO", fid, "a_upper lowered only while b[a_upper] == 0, after the move", hirq.loc(aws[0]))
     else:
@@ -582,8 +592,8 @@ def skip_rule(ctx, facts, fid):
     ws = [w for (w, f, i) in writes_to_self(fn)]
     if not ws:
         return
-    last = max(w["sp"][1] for w in ws)
-    bad = [n for n in user_nodes(fn) if not hirq.from_expansion(n) and n["sp"][1] < last and
+    lastw = [w for w in ws if not any(_before(fn, w, w2) for w2 in ws if w2 is not w)][0]
+    bad = [n for n in user_nodes(fn) if not hirq.from_expansion(n) and _before(fn, n, lastw) and
            (n["k"] == "Ret" or (n["k"] == "Match" and str(n.get("src", "")).startswith("TryDesugar")))]
     # a `continue` inside the draw loop of one item is not a way out of sketch: it is read as nesting of the rest of the
     # iteration (hirq.Tree.conditions), so the guards of the register writes account for it
@@ -636,7 +646,7 @@ def deleg_slice(ctx, facts, fid, finisher=None, rule="DELEG"):
         if t.enclosing_loops(fc) or fother:
             ctx.violation(rule, fid, "finisher guard", hirq.loc(fc), "self.%s must run once after the loop whenever bins are empty; found conditions %s" % (finisher, fconds))
             return
-        if not (fl[0]["match"]["sp"][1] < fc["sp"][1]):
+        if not _before(fn, fl[0]["match"], fc):
             ctx.violation(rule, fid, "finisher order", hirq.loc(fc), "the finisher must come after the per-element loop")
             return
         allowed_mut.add(id(fc))
@@ -706,6 +716,9 @@ def run(ctx, facts):
         for fid, fn in facts.fns.items():
             if "hir" not in fn or not fid.startswith(prefix) or short(fid) in okw[prefix]:
                 continue
+            from .. import inline
+            if inline.absorbed(facts, fid):
+                continue     # a new private helper whose every call was inlined: its writes are judged in its callers
             for fld in fields:
                 for (w, _f, _i) in writes_to_self(fn, fld):
                     ctx.violation("GUARD", fid, "register %s written outside the sketching path" % fld, hirq.loc(w), "%s writes self.%s: %s" % (fid, fld, hirq.show(w)[:60]))
